@@ -225,3 +225,14 @@ Lemma duration_max_refuted :
   history lx_orc false false (mklimits 1000 1000 0 true) lx_token lx_auth [LAuthorize] lx_clock
     = [(BAuth (OAllow 0), 3%N, 7%N, Some 80%N)].
 Proof. split; vm_compute; reflexivity. Qed.
+
+(* known finding time-budget-restarts-after-failed-run (code as it is, after the fixes): the
+   evaluation needs 50 clock units; with max_time = 25 the first call is stopped with Timeout,
+   and the retry succeeds, reporting 20 units -- the time spent by the failed call is forgotten,
+   so a caller that retries gets more than max_time of evaluation in total *)
+Lemma time_restart_refuted :
+  history lx_orc false false (mklimits 1000 1000 1000 false) lx_token lx_auth [LRun] lx_clock
+    = [(BRunOk, 3%N, 7%N, Some 50%N)] /\
+  history lx_orc false false (mklimits 1000 1000 25 false) lx_token lx_auth [LRun; LRun] lx_clock
+    = [(BErr (LLimit Timeout), 3%N, 7%N, None); (BRunOk, 3%N, 7%N, Some 20%N)].
+Proof. split; vm_compute; reflexivity. Qed.
